@@ -11,8 +11,10 @@
 //!                                            compute_partition_key
 //!   T <m|c> <values>                         calculate_token_for_partition_key (hook)
 //!   R ...                                      = K, but must be run by a binary built WITHOUT overflow checks
-//!   E <s|x|u> <rows> <ks:table> <key>        mock cluster whose scylla_tables has exactly <rows> (x: no such
-//!                                            table; u: target table unknown to the metadata), real Session,
+//!   E <s|x|u|n><f|m|d> <rows> <ks:table> <key>  mock cluster whose scylla_tables has exactly <rows> (x: no such
+//!                                            table; u: target table unknown to the metadata; n: target table
+//!                                            without column rows), Session with full / minimal / disabled
+//!                                            schema fetching,
 //!                                            Session::prepare, get_partitioner_name, calculate_token
 //!   Y <m|c> <types> <pk indexes> <cells>     typed CqlValue rows through calculate_token / compute_partition_key
 //!   Z <m|c> <n> <msb> <bytes>                hash_one, then Sharder::shard_of
@@ -457,7 +459,8 @@ fn run_y(f: &[&str]) -> String {
 async fn run_e_group(cases: &[String]) -> Vec<String> {
     use mn::*;
     let f0: Vec<&str> = cases[0].split_whitespace().collect();
-    let mode = f0[1];
+    let mode = &f0[1][0..1];
+    let fetch = if f0[1].len() > 1 { &f0[1][1..2] } else { "f" };
     let rows: Vec<(String, String, Option<String>)> = if f0[2] == "-" {
         vec![]
     } else {
@@ -478,6 +481,8 @@ async fn run_e_group(cases: &[String]) -> Vec<String> {
         })
         .collect();
     let mk_table = |n: &str| TableDef::new(n, &[("pk", CqlType::Blob)], &[], &[]);
+    // scenario n: the target tables are listed in system_schema.tables but have no column rows
+    let nocols: Vec<(String, String)> = if mode == "n" { targets.clone() } else { vec![] };
     // tables known to the metadata: those of the rows, and the targets unless the mode says unknown
     let mut known: Vec<(String, String)> = rows.iter().map(|r| (r.0.clone(), r.1.clone())).collect();
     if mode != "u" {
@@ -493,7 +498,7 @@ async fn run_e_group(cases: &[String]) -> Vec<String> {
         let mut kd = KeyspaceDef::simple(ks, 1);
         for (k, t) in &known {
             if k == ks {
-                kd = kd.with_table(mk_table(t));
+                kd = kd.with_table(if nocols.contains(&(k.clone(), t.clone())) { TableDef::new(t, &[], &[], &[]) } else { mk_table(t) });
             }
         }
         spec = spec.with_keyspace(kd);
@@ -515,6 +520,8 @@ async fn run_e_group(cases: &[String]) -> Vec<String> {
         .known_node_addr(cluster.contact_point(0))
         .local_ip_address(Some(cluster.client_ip()))
         .connection_timeout(std::time::Duration::from_secs(5))
+        .fetch_schema_metadata(fetch != "d")
+        .fetch_full_schema_metadata(fetch != "m")
         .build()
         .await
     {
@@ -769,11 +776,17 @@ fn gen_class_name(r: &mut Rng) -> Option<String> {
 /// a group of E cases sharing one cluster: rows for a few tables (with duplicates and rows of
 /// other keyspaces), then one case per target table
 fn gen_e_group(r: &mut Rng) -> Vec<String> {
-    let mode = match r.below(10) {
+    let scen = match r.below(12) {
         0 => "x",
         1 => "u",
+        2 => "n",
         _ => "s",
     };
+    let mode = format!("{}{}", scen, match r.below(10) {
+        0..=3 => "m",
+        4 => "d",
+        _ => "f",
+    });
     let kss = ["ks", "other"];
     let tbs = ["log", "t", "u", "v"];
     let mut rows: Vec<String> = Vec::new();
@@ -792,7 +805,7 @@ fn gen_e_group(r: &mut Rng) -> Vec<String> {
     (0..n)
         .map(|_| {
             let k = *r.pick(&kss);
-            let t = if mode == "u" { "ghost" } else { *r.pick(&tbs) };
+            let t = if scen == "u" { "ghost" } else { *r.pick(&tbs) };
             let len = r.range(0, 20) as usize;
             format!("E {} {} {}:{} {}", mode, rows_s, k, t, hex_bytes(&gen_bytes(r, len)))
         })
